@@ -7,11 +7,16 @@ Two kinds of cases against the real code of the tree under test:
         Lean side: `Kwd.compileLit` over the generated keyword regex; the pattern is
         compared as a translated AST.  Complete for all literals of length <= 3 over
         {a, 1, _, é, +, .}.
-  gram  a generated grammar (sequence / ordered choice / * / ? / ! over identifier-like
-        and symbol literals, ID, INT) and a text (derived from the grammar, with glued
-        tokens, case variants, injected word characters): `model_from_str` with autokwd
-        on and off.  Lean side: `Kwd.parseText` in both configurations (acceptance and
-        the terminals with offsets and values).
+  gram  a generated grammar (sequence / ordered choice / * / + / ? / ! / & / separator
+        repetitions over identifier-like and symbol literals — plain, assigned with
+        = += *= ?=, through a match rule, as separators —, ID, INT, user regex matches
+        with and without a capturing group), a text (derived from the grammar, with glued
+        tokens, case variants, injected word characters) and a *configuration* of the
+        other metamodel options (use_regexp_group, memoization, auto_init_attributes,
+        textx_tools_support, skipws, ws): `model_from_str` with autokwd on and off.
+        Lean side: `Kwd.parseText` in both configurations (acceptance, the terminals
+        with offsets and values, and the value each assigned terminal contributes to
+        the object graph — compared with the attributes of the model).
 
 The direct oracle decides the three clauses of the property on the implementation's
 observations only.
@@ -28,6 +33,40 @@ IDENTS = ["x", "y1", "foo", "_z", "é2"]
 # characters whose IGNORECASE equivalences in `re` differ from `str.lower()` equality
 EXOTIC = ["ſ", "ı", "İ", "ς"]
 KF_FOLD = "C21-KF1"
+# user regex matches: (source before the group, source of the group | None, sample kind)
+RX_POOL = [("#", r"\w+", "w"), ("@", r"\d+", "d"), ("", r"\w+", "w"), (r"%\w*", None, "pw"), ("x", r"\d+", "d"),
+           (":", r"[^\W\d]\w*", "i"), (r"\$\w+", None, "dw")]
+SEP_POOL = ["and", "or", "a", ",", ";", "_x", "If", "->"]
+DEFAULT_WS = "\t\n\r "
+WS_POOL = [" ", " \n;", "\t\n\r ,", " _"]
+OPT_DEFAULTS = {"rg": False, "memo": False, "autoinit": True, "tools": False, "skipws": True, "ws": None}
+
+
+def opts_of(case):
+    o = dict(OPT_DEFAULTS)
+    o.update(case.get("opts") or {})
+    return o
+
+
+def eff_ws(o):
+    """the characters the parser skips before a terminal"""
+    if not o["skipws"]:
+        return ""
+    return DEFAULT_WS if o["ws"] is None else o["ws"]
+
+
+def mm_kwargs(o):
+    kw = {"use_regexp_group": o["rg"], "memoization": o["memo"], "auto_init_attributes": o["autoinit"],
+          "textx_tools_support": o["tools"]}
+    if not o["skipws"]:
+        kw["skipws"] = False
+    if o["ws"] is not None:
+        kw["ws"] = o["ws"]
+    return kw
+
+
+def rx_src(g):
+    return g[1] + ("(" + g[2] + ")" if g[2] is not None else "")
 
 
 def cps(s):
@@ -87,108 +126,160 @@ def cc_of(text):
 
 
 # ----------------------------------------------------------------------------- grammar rendering
-def pe_json(g):
+def pe_json(g, ic=False):
+    """the grammar as the Lean driver reads it (assignment operators and modifiers become the parsing
+    expressions textX builds for them: `+=` OneOrMore, `*=` ZeroOrMore, `?=` Optional)"""
+    from harness import translate_re as T
+
     k = g[0]
     if k == "lit":
-        return ["lit", cps(g[1])]
+        base = ["lit", cps(g[1])]
+        mode = g[2] if len(g) > 2 else "plain"
+        return {"add": ["plus", base], "mul": ["star", base], "bool": ["opt", base]}.get(mode, base)
     if k in ("id", "int", "empty"):
         return [k]
-    if k in ("seq", "choice"):
-        return [k, pe_json(g[1]), pe_json(g[2])]
-    return [k, pe_json(g[1])]
+    if k == "rx":
+        fl = re.IGNORECASE if ic else 0
+        return ["rx", T.to_json(T.translate(g[1], fl)), None if g[2] is None else T.to_json(T.translate(g[2], fl))]
+    if k == "ids":
+        sep, op = g[1], g[2]
+        if sep is None:
+            return ["plus" if op == "+=" else "star", ["id"]]
+        return ["sepplus" if op == "+=" else "sepstar", ["id"], ["lit", cps(sep)]]
+    if k in ("seq", "choice", "sepplus", "sepstar"):
+        return [k, pe_json(g[1], ic), pe_json(g[2], ic)]
+    return [k, pe_json(g[1], ic)]
 
 
 def lits_of(g):
     k = g[0]
     if k == "lit":
         return [g[1]]
-    if k in ("seq", "choice"):
+    if k == "ids":
+        return [g[1]] if g[1] is not None else []
+    if k in ("seq", "choice", "sepplus", "sepstar"):
         return lits_of(g[1]) + lits_of(g[2])
-    if k in ("star", "opt", "not"):
+    if k in ("star", "opt", "not", "plus", "and"):
         return lits_of(g[1])
     return []
 
 
+ASG_OPS = {"asg": "=", "add": "+=", "mul": "*=", "bool": "?="}
+
+
 def render(g):
-    """PE -> textX grammar text.  Literals are assigned (`kN='lit'`), matched through a match rule
-    (`kN=KwN`) or left plain, as recorded in the tree: ("lit", text, mode)."""
+    """PE -> textX grammar text.  Literals are assigned (`kN='lit'`, also with += *= ?=), matched through a match
+    rule (`kN=KwN`) or left plain, as recorded in the tree: ("lit", text, mode).  Returns the grammar and the kind of
+    every attribute (str / int / bool) by name."""
     rules = []
+    kinds = {"fin": "str"}
     n = [0]
+
+    def q(t):
+        return "'" + t + "'"
 
     def go(g):
         k = g[0]
         if k == "lit":
             n[0] += 1
-            q = "'" + g[1] + "'"
             mode = g[2] if len(g) > 2 else "plain"
-            if mode == "asg":
-                return f"k{n[0]}={q}"
+            if mode in ASG_OPS:
+                kinds[f"k{n[0]}"] = "bool" if mode == "bool" else "str"
+                return f"k{n[0]}{ASG_OPS[mode]}{q(g[1])}"
             if mode == "rule":
-                rules.append(f"Kw{n[0]}: {q};")
+                rules.append(f"Kw{n[0]}: {q(g[1])};")
+                kinds[f"k{n[0]}"] = "str"
                 return f"k{n[0]}=Kw{n[0]}"
-            return q
+            return q(g[1])
         if k == "id":
             n[0] += 1
+            kinds[f"i{n[0]}"] = "str"
             return f"i{n[0]}=ID"
         if k == "int":
             n[0] += 1
+            kinds[f"n{n[0]}"] = "int"
             return f"n{n[0]}=INT"
+        if k == "rx":
+            n[0] += 1
+            mode = g[3] if len(g) > 3 else "asg"
+            if mode == "asg":
+                kinds[f"r{n[0]}"] = "str"
+                return f"r{n[0]}=/{rx_src(g)}/"
+            return f"/{rx_src(g)}/"
+        if k == "ids":
+            n[0] += 1
+            kinds[f"i{n[0]}"] = "str"
+            return f"i{n[0]}{g[2]}ID" + (f"[{q(g[1])}]" if g[1] is not None else "")
         if k == "seq":
             return f"{go(g[1])} {go(g[2])}"
         if k == "choice":
             return f"( {go(g[1])} | {go(g[2])} )"
         if k == "star":
             return f"( {go(g[1])} )*"
+        if k == "plus":
+            return f"( {go(g[1])} )+"
         if k == "opt":
             return f"( {go(g[1])} )?"
         if k == "not":
             return f"!( {go(g[1])} )"
+        if k == "and":
+            return f"&( {go(g[1])} )"
+        if k in ("sepplus", "sepstar"):
+            a = go(g[1])
+            return f"( {a} ){'+' if k == 'sepplus' else '*'}[{q(g[2][1])}]"
         if k == "empty":
             return "''"
         raise ValueError(k)
 
     body = go(g)
-    return "Model: " + body + " fin='.' ;\n" + "\n".join(rules) + "\n"
+    return "Model: " + body + " fin='.' ;\n" + "\n".join(rules) + "\n", kinds
 
 
-def full_pe(g):
+def full_pe(g, ic=False):
     """the grammar as the Lean side sees it: body followed by the closing '.'"""
-    return ["seq", pe_json(g), ["lit", cps(".")]]
+    return ["seq", pe_json(g, ic), ["lit", cps(".")]]
 
 
 _mm_cache = {}
 
 
-def metamodel(gtext, autokwd, ic):
+def metamodel(gtext, autokwd, ic, o=None):
     use_repo()
-    key = (gtext, autokwd, ic)
+    o = o or OPT_DEFAULTS
+    key = (gtext, autokwd, ic, tuple(sorted(o.items(), key=lambda kv: kv[0])))
     if key not in _mm_cache:
         if len(_mm_cache) > 400:
             _mm_cache.clear()
         from textx import metamodel_from_str
 
-        _mm_cache[key] = metamodel_from_str(gtext, autokwd=autokwd, ignore_case=ic)
+        _mm_cache[key] = metamodel_from_str(gtext, autokwd=autokwd, ignore_case=ic, **mm_kwargs(o))
     return _mm_cache[key]
 
 
-def terminals(node, out):
+def terminals(node, out, attr=None, sep=None):
+    """terminals of the parse tree: [position, value, to_match of the rule, name of the attribute the terminal is
+    assigned to (None for plain matches and for separators of a repetition)]"""
     from arpeggio import Terminal
 
     if isinstance(node, Terminal):
         if node.rule_name != "EOF":
-            out.append([node.position, cps(node.value), getattr(node.rule, "to_match", None)])
+            a = None if (sep is not None and node.rule is sep) else attr
+            out.append([node.position, cps(node.value), getattr(node.rule, "to_match", None), a])
     else:
+        if str(node.rule_name).startswith("__asgn"):
+            attr = getattr(node.rule, "_attr_name", None)
+            sep = getattr(node.rule, "sep", None)
         for n in node:
-            terminals(n, out)
+            terminals(n, out, attr, sep)
     return out
 
 
-def run_cfg(gtext, text, autokwd, ic):
+def run_cfg(gtext, text, autokwd, ic, o=None):
     use_repo()
     from textx.exceptions import TextXSyntaxError, TextXError
 
     try:
-        mm = metamodel(gtext, autokwd, ic)
+        mm = metamodel(gtext, autokwd, ic, o)
     except Exception as e:
         return {"gerr": type(e).__name__, "msg": str(e)[:200]}
     try:
@@ -217,23 +308,32 @@ class Prop(Check):
         "Kwd.C21_non_kwd_unchanged",
         "Kwd.C21_token_agree",
         "Kwd.C21_same_model",
+        "Kwd.C21_literal_value",
         "Kwd.C21_glued_differs",
     ]
     DRIVER = "Drivers/Re.lean"
     PROCS_THOROUGH = 4
     QUICK_CASES = 300
     THOROUGH_CASES = 30000
-    RULE = ("gram cases: a grammar of 2..7 elements over identifier-like and symbol literals (plain, assigned or through a "
-            "match rule), ID, INT with choice / * / ? / !, and a text derived from it with glued tokens, injected word "
-            "characters and (under ignore_case) case variants, loaded with autokwd on and off; lits cases: all literals of "
+    RULE = ("gram cases: a grammar of 2..7 elements over identifier-like and symbol literals (plain, assigned with = += *= ?=, "
+            "through a match rule, as separator of a repetition), ID, INT, user regex matches with / without a capturing "
+            "group, with choice / * / + / ? / ! / & / separator repetitions; a text derived from it with glued tokens, "
+            "injected word characters and (under ignore_case) case variants; and a configuration of the other metamodel "
+            "options (use_regexp_group, memoization, auto_init_attributes, textx_tools_support, skipws, ws) — loaded with "
+            "autokwd on and off; config-matrix cases: keyword-like literals x assignment kind x ignore_case x "
+            "use_regexp_group x the other options (pairwise) on a case-variant input; lits cases: all literals of "
             "length <= 3 over {a,1,_,é,+,.} and pool / random Unicode literals through visit_str_match.  non-trivial = a "
             "gram case with a keyword-like literal that is accepted with autokwd, or in which a keyword-like literal is "
             "glued to a word character; or a lits case")
     MODELLED = ("regenerated (tie T): TextXVisitor.keyword_regex and the pattern visit_str_match builds for a probe literal "
                 "(Python's re._parser -> Re.R; kwProbe_shape / keyword_shape are rfl); hand-modelled: visit_str_match "
-                "(Kwd.compileLit, tie X op compile on every literal), StrMatch/RegExMatch._parse and Arpeggio's sequence / "
-                "ordered choice / ZeroOrMore / Optional / Not with whitespace skipping (Kwd.parse, tie X op parse); not "
-                "exhibited: Arpeggio's error positions, rule modifiers, comments, memoization (other properties)")
+                "(Kwd.compileLit, tie X op compile on every literal, incl. regex.groups), StrMatch/RegExMatch/KeywordMatch._parse "
+                "and Arpeggio's sequence / ordered choice / ZeroOrMore / OneOrMore / Optional / Not / And / separator "
+                "repetitions with skipping of the configured whitespace set (Kwd.parse, tie X op parse), the Terminal branch "
+                "of process_node in textx/model.py (value for the object graph, use_regexp_group; Kwd.tokMatch) compared "
+                "with the attribute values of the model; memoization / auto_init_attributes / textx_tools_support are varied "
+                "and must be transparent; not exhibited: Arpeggio's error positions, rule modifiers, comments, nested "
+                "rules / object-valued attributes, regexes with more than one group (other properties)")
     ASSUMPTIONS = [
         "with ignore_case: str.lower() equality and re's IGNORECASE agree on the characters involved (false for ſ ı İ ς: known finding C21-KF1)",
         "grammars of the PEG fragment of Kwd.PE; alternatives and repetition bodies do not match empty (Arpeggio quirks are C01's)",
@@ -245,63 +345,134 @@ class Prop(Check):
         self.TRANSLATE = translate_re.run
 
     # ------------------------------------------------------------------ generation
-    def gen_pe(self, rng, lits, depth, nullable_ok=True):
-        """random PE; returns (tree, nullable)"""
-        def leaf():
-            k = rng.weighted([("lit", 6), ("id", 2), ("int", 1)])
+    def gen_pe(self, rng, lits, depth, inrep=False):
+        """random PE; returns (tree, nullable).  inrep: inside a * / + repetition (no `?=` there: textX refuses it)"""
+        def leaf(nonnull=False):
+            k = rng.weighted([("lit", 12), ("id", 4), ("int", 2), ("rx", 3), ("ids", 2)])
             if k == "lit":
-                return ("lit", rng.choice(lits), rng.weighted([("plain", 3), ("asg", 3), ("rule", 1)])), False
+                mode = rng.weighted([("plain", 6), ("asg", 6), ("rule", 2), ("add", 2), ("mul", 1), ("bool", 2)])
+                if (nonnull and mode in ("mul", "bool")) or (inrep and mode == "bool"):
+                    mode = "asg"
+                return ("lit", rng.choice(lits), mode), mode in ("mul", "bool")
+            if k == "rx":
+                pre, body, kind = rng.choice(RX_POOL)
+                return ("rx", pre, body, rng.weighted([("asg", 4), ("plain", 1)]), kind), False
+            if k == "ids":
+                sep = rng.choice([l for l in lits] + SEP_POOL) if rng.chance(0.75) else None
+                op = "+=" if nonnull or rng.chance(0.7) else "*="
+                return ("ids", sep, op), op == "*="
             return (k,), False
+
+        def body(d, inrep=inrep):
+            a, na = self.gen_pe(rng, lits, d, inrep)
+            if na:
+                a = ("seq", leaf(True)[0], a)
+            return a
 
         if depth <= 0:
             return leaf()
-        k = rng.weighted([("leaf", 4), ("seq", 5), ("choice", 3), ("star", 2), ("opt", 2), ("notseq", 1)])
+        k = rng.weighted([("leaf", 8), ("seq", 10), ("choice", 6), ("star", 3), ("opt", 4), ("plus", 2), ("sep", 2),
+                          ("notseq", 2), ("andseq", 1)])
         if k == "leaf":
             return leaf()
         if k == "seq":
-            a, na = self.gen_pe(rng, lits, depth - 1)
-            b, nb = self.gen_pe(rng, lits, depth - 1)
+            a, na = self.gen_pe(rng, lits, depth - 1, inrep)
+            b, nb = self.gen_pe(rng, lits, depth - 1, inrep)
             return ("seq", a, b), na and nb
         if k == "choice":
-            a, na = self.gen_pe(rng, lits, depth - 1)
-            b, nb = self.gen_pe(rng, lits, depth - 1)
-            if na:
-                a = ("seq", leaf()[0], a)
-            if nb:
-                b = ("seq", leaf()[0], b)
-            return ("choice", a, b), False
-        if k in ("star", "opt"):
-            a, na = self.gen_pe(rng, lits, depth - 1)
-            if na:
-                a = ("seq", leaf()[0], a)
-            return (k, a), True
+            return ("choice", body(depth - 1), body(depth - 1)), False
+        if k == "opt":
+            return (k, body(depth - 1)), True
+        if k == "star":
+            return (k, body(depth - 1, True)), True
+        if k == "plus":
+            return ("plus", body(depth - 1, True)), False
+        if k == "sep":
+            kk = rng.choice(["sepplus", "sepplus", "sepstar"])
+            return (kk, body(depth - 1, True), ("lit", rng.choice(lits + SEP_POOL), "plain")), kk == "sepstar"
+        if k == "andseq":
+            # `&kw ID`: only identifiers that are the keyword (on a word boundary under autokwd)
+            return ("seq", ("and", ("lit", rng.choice(lits), "plain")), ("id",)), False
         # `!kw ID`: the usual way to keep keywords out of identifiers
         return ("seq", ("not", ("lit", rng.choice(lits), "plain")), ("id",)), False
+
+    def spell(self, rng, t, ic):
+        if ic and rng.chance(0.5):
+            u = rng.choice([t.upper(), t.lower(), t.swapcase()])
+            if len(u) == len(t):
+                return u
+        return t
+
+    def ident(self, rng):
+        pool = list(IDENTS)
+        if self._kws:
+            pool += [l + rng.choice(["x", "1", "_"]) for l in self._kws]
+            if rng.chance(0.15):
+                pool += self._kws
+        return rng.choice(pool)
 
     def derive(self, rng, g, ic, toks):
         k = g[0]
         if k == "lit":
-            t = g[1]
-            if ic and rng.chance(0.5):
-                t = rng.choice([t.upper(), t.lower(), t.swapcase()])
-                if len(t) != len(g[1]):
-                    t = g[1]
-            toks.append(t)
+            mode = g[2] if len(g) > 2 else "plain"
+            cnt = {"add": rng.randint(1, 3), "mul": rng.below(3), "bool": rng.below(2)}.get(mode, 1)
+            for _ in range(cnt):
+                toks.append(self.spell(rng, g[1], ic))
         elif k == "id":
-            toks.append(rng.choice(IDENTS + [l + rng.choice(["x", "1", "_"]) for l in self._kws] if self._kws else IDENTS))
+            toks.append(self.ident(rng))
         elif k == "int":
             toks.append(str(rng.randint(0, 99)))
+        elif k == "rx":
+            kind = g[4] if len(g) > 4 else "w"
+            pre = {"pw": "%", "dw": "$"}.get(kind, g[1])
+            if kind == "d":
+                w = str(rng.randint(0, 999))
+            elif kind == "pw":
+                w = rng.choice(["", "t1", "Ab"])
+            elif kind == "i":
+                w = rng.choice(IDENTS + ["T1", "Ab"])
+            else:
+                w = rng.choice(IDENTS + ["T1", "42", "Ab"] + self._kws)
+            toks.append(pre + w)
+        elif k == "ids":
+            cnt = rng.randint(1, 3) if g[2] == "+=" else rng.below(3)
+            for i in range(cnt):
+                if i and g[1] is not None:
+                    toks.append(self.spell(rng, g[1], ic))
+                toks.append(self.ident(rng))
         elif k == "seq":
             self.derive(rng, g[1], ic, toks)
             self.derive(rng, g[2], ic, toks)
         elif k == "choice":
             self.derive(rng, g[1 + rng.below(2)], ic, toks)
-        elif k == "star":
-            for _ in range(rng.weighted([(0, 2), (1, 3), (2, 2), (3, 1)])):
+        elif k in ("star", "plus"):
+            lo = 1 if k == "plus" else 0
+            for _ in range(rng.weighted([(lo, 2), (1, 3), (2, 2), (3, 1)])):
+                self.derive(rng, g[1], ic, toks)
+        elif k in ("sepplus", "sepstar"):
+            cnt = rng.randint(1, 3) if k == "sepplus" else rng.below(3)
+            for i in range(cnt):
+                if i:
+                    toks.append(self.spell(rng, g[2][1], ic))
                 self.derive(rng, g[1], ic, toks)
         elif k == "opt":
             if rng.chance(0.6):
                 self.derive(rng, g[1], ic, toks)
+
+    def gen_opts(self, rng):
+        return {"rg": rng.chance(0.45), "memo": rng.chance(0.3), "autoinit": not rng.chance(0.25),
+                "tools": rng.chance(0.15), "skipws": not rng.chance(0.07),
+                "ws": rng.choice(WS_POOL) if rng.chance(0.2) else None}
+
+    def join(self, rng, toks, o, glue_p):
+        ws = eff_ws(o)
+        seps = [" ", " ", "\n", "  "] if ws == DEFAULT_WS else ([ws[0], ws[0], ws[-1], ws[0] * 2] if ws else [""])
+        text = ""
+        for i, t in enumerate(toks):
+            if i:
+                text += "" if rng.chance(glue_p) else rng.choice(seps)
+            text += t
+        return text
 
     def gram_case(self, rng, tier, exotic=False):
         nl = rng.randint(1, 4)
@@ -313,16 +484,12 @@ class Prop(Check):
         g, _ = self.gen_pe(rng, lits, rng.randint(1, 3))
         if g[0] != "seq" and rng.chance(0.6):
             g = ("seq", g, self.gen_pe(rng, lits, 1)[0])
+        o = self.gen_opts(rng)
         self._kws = [l for l in lits_of(g) if kwlike_spec(l)]
         toks = []
         self.derive(rng, g, ic, toks)
         toks.append(".")
-        glue_p = rng.choice([0.0, 0.15, 0.4, 0.8])
-        text = ""
-        for i, t in enumerate(toks):
-            if i:
-                text += "" if rng.chance(glue_p) else rng.choice([" ", " ", "\n", "  "])
-            text += t
+        text = self.join(rng, toks, o, rng.choice([0.0, 0.15, 0.4, 0.8]))
         m = rng.weighted([("none", 5), ("inject", 2), ("drop", 1), ("case", 1), ("exotic", 2 if exotic else 0)])
         if m == "inject" and self._kws:
             kw = rng.choice(self._kws)
@@ -336,7 +503,42 @@ class Prop(Check):
             text = text.swapcase()
         elif m == "exotic":
             text = text.replace("s", "ſ", 1) if rng.chance(0.5) else text.replace("i", "ı", 1)
-        return {"k": "gram", "g": g, "ic": ic, "text": cps(text)}
+        return {"k": "gram", "g": g, "ic": ic, "opts": o, "text": cps(text)}
+
+    def config_matrix(self, rng, tier):
+        """keyword-like literal x way the literal is used x ignore_case x use_regexp_group, the remaining options
+        cycling through all their combinations; the input spells the keyword as the grammar does and (under
+        ignore_case) differently, next to a user regex with a group and an identifier"""
+        out = []
+        kws = [l for l in KW_POOL if l.lower() != l.upper()]
+        picks = rng.sample(kws, 3 if tier == "quick" else len(kws))
+        modes = ["asg", "add", "bool", "rule", "plain", "sep"]
+        rest = [(memo, autoinit, tools, ws) for memo in (False, True) for autoinit in (True, False)
+                for tools in (False, True) for ws in (None, " ", "skip")]
+        n = rng.below(len(rest))
+        for l in picks:
+            for mode in modes:
+                for ic in (False, True):
+                    for rg in (False, True):
+                        memo, autoinit, tools, ws = rest[n % len(rest)]
+                        n += 5
+                        o = {"rg": rg, "memo": memo, "autoinit": autoinit, "tools": tools, "skipws": ws != "skip",
+                             "ws": ws if ws != "skip" else None}
+                        rx = ("rx", "#", r"\w+", "asg", "w")
+                        if mode == "sep":
+                            g = ("seq", ("ids", l, "+="), rx)
+                            words = ["x", None, "y1", "#t1", "."]
+                        else:
+                            g = ("seq", ("lit", l, mode), ("seq", rx, ("opt", ("id",))))
+                            words = [None, "#t1", "x", "."]
+                        for variant in ((l,) if not ic else (l, l.swapcase(), l.upper())):
+                            toks = [variant if w is None else w for w in words]
+                            text = (" " if o["skipws"] else "").join(toks)
+                            if not o["skipws"]:
+                                # nothing is skipped: only the self-delimiting part of the input can be accepted
+                                text = variant + "#t1." if mode != "sep" else "x#t1."
+                            out.append({"k": "gram", "g": g, "ic": ic, "opts": o, "text": cps(text), "origin": "config-matrix"})
+        return out
 
     def gen(self, rng, n, tier):
         out = []
@@ -364,6 +566,8 @@ class Prop(Check):
             for follow in ["", " ", "a", "1", "_", "é", "+", ".", " a"]:
                 g = ("seq", ("lit", l, "asg"), ("opt", ("id",)))
                 out.append({"k": "gram", "g": g, "ic": False, "text": cps(l + follow + " ."), "origin": "glue-matrix"})
+        # --- the other metamodel options, systematically
+        out.extend(self.config_matrix(rng.fork("config"), tier))
         # --- random grammars
         r = rng.fork("gram")
         for _ in range(n):
@@ -394,15 +598,20 @@ class Prop(Check):
                             ast = T.to_json(T.translate(got[1], got[2]))
                         except T.Untranslatable as e:
                             ast = {"untranslatable": str(e), "pattern": got[1]}
-                        row["on" if ak else "off"] = {"kind": "re", "re": ast, "value": cps(got[3])}
+                        try:
+                            groups = re.compile(got[1], got[2]).groups
+                        except re.error as e:
+                            groups = str(e)
+                        row["on" if ak else "off"] = {"kind": "re", "re": ast, "value": cps(got[3]), "groups": groups}
                     else:
                         row["on" if ak else "off"] = {"kind": "str", "lit": cps(got[1]), "icase": got[2]}
                 res.append(row)
             return {"rows": res}
-        gtext = render(case["g"])
+        gtext, kinds = render(case["g"])
         text = uncps(case["text"])
-        return {"on": run_cfg(gtext, text, True, case["ic"]), "off": run_cfg(gtext, text, False, case["ic"]),
-                "grammar": gtext}
+        o = opts_of(case)
+        return {"on": run_cfg(gtext, text, True, case["ic"], o), "off": run_cfg(gtext, text, False, case["ic"], o),
+                "grammar": gtext, "kinds": kinds}
 
     # ------------------------------------------------------------------ model
     def chars_of(self, case):
@@ -418,7 +627,9 @@ class Prop(Check):
             return {"op": "compile", "cc": cc, "lits": case["lits"], "autokwd": True, "icase": case["ic"]}
         if "gerr" in obs["on"] or "gerr" in obs["off"]:
             return None
-        return {"op": "parse", "cc": cc, "g": full_pe(case["g"]), "icase": case["ic"], "text": case["text"]}
+        o = opts_of(case)
+        return {"op": "parse", "cc": cc, "g": full_pe(case["g"], case["ic"]), "icase": case["ic"], "ws": cps(eff_ws(o)),
+                "ug": o["rg"], "text": case["text"]}
 
     def compare(self, case, obs, out):
         if "err" in out:
@@ -440,10 +651,53 @@ class Prop(Check):
                 return (f"autokwd {cfg}: grammar {obs['grammar']!r} on {uncps(case['text'])!r}: implementation "
                         f"{'accepts' if o['ok'] else 'rejects'}, model {'accepts' if mo['ok'] else 'rejects'}")
             if o["ok"]:
-                got = [[p, v] for p, v, _ in o["toks"]]
-                if got != mo["toks"]:
+                got = [[t[0], t[1]] for t in o["toks"]]
+                want = [[t[0], t[1]] for t in mo["toks"]]
+                if got != want:
                     return (f"autokwd {cfg}: terminals differ on {uncps(case['text'])!r} ({obs['grammar']!r}): implementation "
-                            f"{[(p, uncps(v)) for p, v in got]}, model {[(p, uncps(v)) for p, v in mo['toks']]}")
+                            f"{[(p, uncps(v)) for p, v in got]}, model {[(p, uncps(v)) for p, v in want]}")
+                bad = self.compare_attrs(o, mo, obs["kinds"])
+                if bad:
+                    return (f"autokwd {cfg}, options {opts_of(case)}: {bad} on {uncps(case['text'])!r} ({obs['grammar']!r}, "
+                            f"ignore_case={case['ic']})")
+        return None
+
+    @staticmethod
+    def compare_attrs(o, mo, kinds):
+        """the attribute values of the model against the values the modelled terminals hand to the object graph:
+        per attribute, the terminals assigned to it in parse-tree order (`to which attribute` is read off the
+        implementation's parse tree; the values are the model's)"""
+        exp = {}
+        for t, mt in zip(o["toks"], mo["toks"]):
+            if len(t) > 3 and t[3] is not None:
+                exp.setdefault(t[3], []).append(uncps(mt[2]))
+        root = o["dump"].get("root", {})
+        for name, v in root.get("attrs", []):
+            vals = exp.get(name, [])
+            kind = kinds.get(name)
+            if kind is None:
+                return f"attribute {name!r} is not of the grammar"
+            if kind == "bool":
+                if v != {"p": "bool", "v": bool(vals)}:
+                    return f"attribute {name} is {v}, model {bool(vals)}"
+                continue
+            if kind == "int":
+                try:
+                    want = [{"p": "int", "v": int(x)} for x in vals]
+                except ValueError:
+                    return f"attribute {name}: model values {vals} are no integers"
+            else:
+                want = [{"p": "str", "v": x} for x in vals]
+            if isinstance(v, list):
+                if v != want:
+                    return f"attribute {name} is {v}, model {want}"
+            elif want:
+                if v != want[-1]:
+                    return f"attribute {name} is {v}, model {want[-1]}"
+            # no terminal assigned: the default value (auto_init_attributes) is not C21's business
+        for name in exp:
+            if name not in {a for a, _ in root.get("attrs", [])}:
+                return f"terminals assigned to {name!r} but the model has no such attribute"
         return None
 
     # ------------------------------------------------------------------ direct oracle
@@ -491,7 +745,7 @@ class Prop(Check):
         kws = [l for l in lits if kwlike_spec(l)]
         # (1) a keyword-like literal never matches when the next input character is a word character
         if on["ok"]:
-            for pos, val, rule in on["toks"]:
+            for pos, val, rule in (t[:3] for t in on["toks"]):
                 if rule in kws:
                     end = pos + len(val)
                     if end < len(text) and is_word(text[end]):
@@ -575,15 +829,27 @@ class Prop(Check):
                     yield (k, a, t[2])
                 for b in subs(t[2]):
                     yield (k, t[1], b)
-            elif k in ("star", "opt", "not"):
+            elif k in ("star", "opt", "not", "plus", "and"):
                 yield t[1]
                 for a in subs(t[1]):
                     yield (k, a)
+            elif k in ("sepplus", "sepstar"):
+                yield t[1]
+                for a in subs(t[1]):
+                    yield (k, a, t[2])
+            elif k == "ids":
+                yield ("id",)
+                if t[1] is not None:
+                    yield ("ids", None, t[2])
             elif k == "lit" and len(t) > 2 and t[2] != "asg":
                 yield ("lit", t[1], "asg")
 
         for g2 in subs(g):
             yield dict(case, g=g2)
+        o = opts_of(case)
+        for name, dv in OPT_DEFAULTS.items():
+            if o[name] != dv:
+                yield dict(case, opts=dict(o, **{name: dv}))
         t = uncps(case["text"])
         for i in range(len(t)):
             yield dict(case, text=cps(t[:i] + t[i + 1:]))
@@ -605,6 +871,8 @@ class Prop(Check):
     def extra_evidence(self, cases, obs, outs):
         acc_on = acc_off = glued = with_kw = ic = 0
         ngram = 0
+        optc = {"use_regexp_group": 0, "memoization": 0, "auto_init_attributes_off": 0, "textx_tools_support": 0,
+                "skipws_off": 0, "custom_ws": 0, "regex_with_group": 0, "ic_and_regexp_group_accepted": 0}
         for c, o in zip(cases, obs):
             if c["k"] != "gram" or "on" not in o:
                 continue
@@ -620,8 +888,17 @@ class Prop(Check):
                 glued += 1
             if c["ic"]:
                 ic += 1
+            oo = opts_of(c)
+            optc["use_regexp_group"] += oo["rg"]
+            optc["memoization"] += oo["memo"]
+            optc["auto_init_attributes_off"] += not oo["autoinit"]
+            optc["textx_tools_support"] += oo["tools"]
+            optc["skipws_off"] += not oo["skipws"]
+            optc["custom_ws"] += oo["ws"] is not None
+            optc["regex_with_group"] += "'rx'" in repr(c["g"]) or '"rx"' in repr(c["g"])
+            optc["ic_and_regexp_group_accepted"] += bool(c["ic"] and oo["rg"] and o["on"].get("ok"))
         nl = sum(len(c["lits"]) for c in cases if c["k"] == "lits")
         return {"distribution": {"gram_cases": ngram, "with_keyword_like_literal": with_kw, "accepted_autokwd_on": acc_on,
                                  "accepted_autokwd_off": acc_off, "glued_keyword_in_text": glued, "ignore_case": ic,
-                                 "literals_compiled": nl},
+                                 "literals_compiled": nl, "options": optc},
                 "exhaustive": {"literals_len_le_3_over_6_chars_x_2_configs": sum(len(c["lits"]) for c in cases if c.get("origin") == "exhaustive")}}
